@@ -216,3 +216,159 @@ func c33Renegotiation() *explore.Scenario {
 		},
 	}
 }
+
+// c33PoisonedCache — a hostile server's NewSessionTicket must not be able to leave something in the
+// ClientSessionCache that crashes the NEXT connection: connection 1 receives a mutated ticket
+// message (consistently, before the server's transcript), connection 2 — same Config and cache,
+// honest server — must again return without panic.
+func c33PoisonedCache(thorough bool) *explore.Scenario {
+	clients := c33Clients()
+	for _, n := range AllIDs() {
+		if n.Name == "HelloChrome_120" || n.Name == "HelloFirefox_105" || n.Name == "HelloSafari_16_0" {
+			clients = append(clients, gridClient{Name: n.Name, ID: n.ID})
+		}
+	}
+	shapes := []string{"ticket-empty", "ticket-1-byte", "lifetime-0", "lifetime-max", "nonce-empty", "nonce-255", "ticket-65535"}
+	return &explore.Scenario{
+		Name:     "mutated-session-ticket-then-a-second-connection",
+		Watchdog: 60 * time.Second, HangSig: "C33|hang|second-connection",
+		Run: func(x *explore.X) (r explore.Result) {
+			g := clients[x.Choose("client", len(clients))]
+			vers := []uint16{tls.VersionTLS12, tls.VersionTLS13}[x.Choose("version", 2)]
+			kind := x.Choose("kind", 3) // 0 well-formed message of a degenerate shape, 1 one byte changed, 2 body truncated (length field fixed up)
+			var mut func(d []byte) []byte
+			desc := ""
+			switch kind {
+			case 0:
+				sh := shapes[x.Choose("shape", len(shapes))]
+				desc = sh
+				mut = func(d []byte) []byte {
+					body := d[4:]
+					var life, rest []byte // rest: what follows the lifetime up to the ticket (TLS 1.3: age_add, nonce)
+					var nonce []byte
+					if len(body) < 6 {
+						return d
+					}
+					life = append([]byte(nil), body[:4]...)
+					ticket := []byte(nil)
+					var exts []byte
+					if vers == tls.VersionTLS13 {
+						if len(body) < 9 {
+							return d
+						}
+						rest = append([]byte(nil), body[4:8]...)
+						nl := int(body[8])
+						if len(body) < 9+nl+2 {
+							return d
+						}
+						nonce = append([]byte(nil), body[9:9+nl]...)
+						tl := int(body[9+nl])<<8 | int(body[10+nl])
+						if len(body) < 11+nl+tl {
+							return d
+						}
+						ticket = append([]byte(nil), body[11+nl:11+nl+tl]...)
+						exts = append([]byte(nil), body[11+nl+tl:]...)
+					} else {
+						tl := int(body[4])<<8 | int(body[5])
+						if len(body) < 6+tl {
+							return d
+						}
+						ticket = append([]byte(nil), body[6:6+tl]...)
+					}
+					switch sh {
+					case "ticket-empty":
+						ticket = []byte{}
+					case "ticket-1-byte":
+						ticket = []byte{7}
+					case "ticket-65535":
+						ticket = rep(0x5a, 65535-64)
+					case "lifetime-0":
+						life = []byte{0, 0, 0, 0}
+					case "lifetime-max":
+						life = []byte{0xff, 0xff, 0xff, 0xff}
+					case "nonce-empty":
+						nonce = []byte{}
+					case "nonce-255":
+						nonce = rep(1, 255)
+					}
+					out := append([]byte{}, life...)
+					if vers == tls.VersionTLS13 {
+						out = append(out, rest...)
+						out = append(out, byte(len(nonce)))
+						out = append(out, nonce...)
+					}
+					out = append(out, byte(len(ticket)>>8), byte(len(ticket)))
+					out = append(out, ticket...)
+					out = append(out, exts...)
+					return hsMsg(4, out)
+				}
+			case 1:
+				pos := x.Choose("pos", 48)
+				val := byteVals[x.Choose("val", 3)]
+				desc = fmt.Sprintf("byte[%d]=%#02x", pos, val)
+				mut = func(d []byte) []byte {
+					if pos >= len(d) {
+						return d
+					}
+					c := append([]byte(nil), d...)
+					if val == 1 {
+						c[pos] ^= 1
+					} else {
+						c[pos] = val
+					}
+					return c
+				}
+			case 2:
+				l := x.Choose("pos", 48)
+				desc = fmt.Sprintf("body-truncated-to-%d", l)
+				mut = func(d []byte) []byte {
+					if 4+l > len(d) {
+						return d
+					}
+					return hsMsg(4, d[4:4+l])
+				}
+			}
+			what := fmt.Sprintf("%s vers=%04x NewSessionTicket %s, then a second connection through the same cache", g.Name, vers, desc)
+			ccfg := g.config("example.com")
+			ccfg.ClientSessionCache = tls.NewLRUClientSessionCache(4)
+			ccfg.PreferSkipResumptionOnNilExtension = true
+			scfg := peer.ServerConfig()
+			scfg.MaxVersion = vers
+			mutated := 0
+			hk := &connHooks{}
+			hk.Out = func(n int, t uint8, d []byte) []byte {
+				if t == 4 && len(d) > 4 {
+					mutated++
+					return mut(d)
+				}
+				return d
+			}
+			var cleanup func()
+			hs1 := peer.Run(ccfg, g.ID, scfg, peer.Opts{Prepare: g.prepare(), Echo: true,
+				OnConns: func(u *tls.UConn, s *tls.Conn) { cleanup = installHooks(s, hk) }})
+			if cleanup != nil {
+				cleanup()
+			}
+			if hs1.CPanic != "" {
+				r.Violate("C33|client-panic|ticket-message|first-connection|"+errClass(fmt.Errorf("%s", firstLineOf(hs1.CPanic))), "%s: connection 1 panicked: %s", what, truncStr(hs1.CPanic, 500))
+				return
+			}
+			if mutated == 0 {
+				r.Obs = "no-ticket-message"
+				return
+			}
+			hs2 := peer.Run(ccfg, g.ID, scfg, peer.Opts{Prepare: g.prepare(), Echo: true})
+			r.Nontrivial = true
+			r.Class = what
+			if hs2.CPanic != "" {
+				r.Violate(fmt.Sprintf("C33|client-panic|second-connection-after-mutated-ticket|vers=%04x|%s", vers, errClass(fmt.Errorf("%s", firstLineOf(hs2.CPanic)))), "%s: connection 2 panicked: %s", what, truncStr(hs2.CPanic, 500))
+			}
+			r.Count("second_connections", 1)
+			if hs2.CErr == nil && hs2.U.ConnectionState().DidResume {
+				r.Count("second_connections_resumed", 1)
+			}
+			r.Obs = fmt.Sprintf("c1=%s|c2=%s", errClass(hs1.CErr), errClass(hs2.CErr))
+			return
+		},
+	}
+}
